@@ -2,5 +2,319 @@
 
 package main
 
-// scheduler: deterministic schedule executor over store commands and provider calls (filled in by drv_sched.go)
-type scheduler struct{}
+import (
+	"fmt"
+	"os"
+	"net/http"
+	"net/url"
+	"strings"
+	"sync"
+	"time"
+
+	"github.com/alicebob/miniredis/v2/server"
+)
+
+// scheduler: a deterministic schedule executor. Every controlled process is one HTTP request served by its own replica (own go-redis client,
+// identified by client_name); every store command of a controlled replica and every provider call is a SCHEDULING POINT: it is parked until
+// the scheduler releases that process, may be answered with an injected fault, or is never released (crash). Exactly one process runs at a time.
+
+type stepKind int
+
+const (
+	stepProceed stepKind = iota
+	stepFault
+	stepCrash
+)
+
+type parkedStep struct {
+	pid   string
+	what  string // GET k | SET k | SETXX k | DEL k | LOCK | UNLOCK | IDP refresh | IDP code | …
+	reply chan stepKind
+}
+
+type procState struct {
+	pid     string
+	replica *replica
+	parked  *parkedStep
+	done    bool
+	crashed bool
+	resp    *response
+	steps   []string // executed steps, in order
+}
+
+type scheduler struct {
+	s       *sut
+	mu      sync.Mutex
+	procs   map[string]*procState
+	order   []string
+	events  chan string // pid whose state changed (parked or done)
+	current string      // the process that is running (owner of provider calls)
+	active  bool
+	trace   []string // global trace "pid:step"
+	faultAt map[string]int
+	blockAfter time.Duration // > 0: a process that does not settle within this time is considered blocked on an in-process lock
+	dead    map[string]bool
+}
+
+func classifyCmd(cmd string, args []string) (string, bool) {
+	c := strings.ToUpper(cmd)
+	key := ""
+	if len(args) > 0 {
+		key = args[0]
+	}
+	cls := "session"
+	if strings.HasSuffix(key, ".lock") {
+		cls = "lock"
+	}
+	switch c {
+	case "GET":
+		return "GET " + cls, true
+	case "DEL":
+		return "DEL " + cls, true
+	case "SET":
+		xx, keep, ex := false, false, false
+		for _, a := range args[2:] {
+			switch strings.ToUpper(a) {
+			case "XX":
+				xx = true
+			case "KEEPTTL":
+				keep = true
+			case "EX", "PX":
+				ex = true
+			}
+		}
+		mode := "SET"
+		if xx {
+			mode += "XX"
+		}
+		if keep {
+			mode += "-KEEPTTL"
+		}
+		if ex {
+			mode += "-EX"
+		}
+		return mode + " " + cls, true
+	case "EVALSHA", "EVAL":
+		// redislock: obtain has 3 ARGV (token, tokenlen, ttl) – release has 1; both carry the lock key
+		n := len(args)
+		if n >= 6 {
+			return "LOCK", true
+		}
+		return "UNLOCK", true
+	}
+	return "", false
+}
+
+func newScheduler(s *sut) *scheduler {
+	sc := &scheduler{s: s, procs: map[string]*procState{}, events: make(chan string, 64), dead: map[string]bool{}}
+	s.installHook(func(p *server.Peer, cmd string, args ...string) bool {
+		name := p.ClientName
+		sc.mu.Lock()
+		ps := sc.procs[name]
+		active := sc.active
+		dead := sc.dead[name]
+		sc.mu.Unlock()
+		if dead {
+			p.WriteError("ERR connection of a crashed process")
+			return true
+		}
+		if !active || ps == nil || ps.done {
+			return false
+		}
+		what, ok := classifyCmd(cmd, args)
+		if !ok {
+			return false
+		}
+		switch sc.park(ps, what) {
+		case stepFault:
+			p.WriteError("ERR injected store fault")
+			return true
+		case stepCrash:
+			p.WriteError("ERR connection of a crashed process")
+			return true
+		}
+		return false
+	})
+	s.idp.mu.Lock()
+	s.idp.gate = func(kind string, form url.Values) *idpFault {
+		sc.mu.Lock()
+		ps := sc.procs[sc.current]
+		active := sc.active
+		sc.mu.Unlock()
+		if !active || ps == nil || ps.done {
+			return nil
+		}
+		what := "IDP " + strings.TrimPrefix(kind, "token:")
+		switch sc.park(ps, what) {
+		case stepFault:
+			return &idpFault{status: 503, body: "injected provider fault"}
+		case stepCrash:
+			return &idpFault{status: 503, body: "crashed", hang: 50 * time.Millisecond}
+		}
+		return nil
+	}
+	s.idp.mu.Unlock()
+	return sc
+}
+
+func (sc *scheduler) park(ps *procState, what string) stepKind {
+	st := &parkedStep{pid: ps.pid, what: what, reply: make(chan stepKind, 1)}
+	sc.mu.Lock()
+	if !sc.active { // stop() ran in between: nobody would ever release this step
+		sc.mu.Unlock()
+		return stepProceed
+	}
+	ps.parked = st
+	sc.mu.Unlock()
+	if os.Getenv("VERIF_DEBUG") != "" {
+		fmt.Fprintln(os.Stderr, "      park", ps.pid, what)
+	}
+	sc.events <- ps.pid
+	k := <-st.reply
+	return k
+}
+
+// spawn registers a process; it starts running when first scheduled.
+func (sc *scheduler) spawn(pid string, rp *replica, b *browser, method, target string, hdr http.Header) {
+	ps := &procState{pid: pid, replica: rp}
+	sc.mu.Lock()
+	sc.procs[pid] = ps
+	sc.order = append(sc.order, pid)
+	sc.mu.Unlock()
+	ps.parked = &parkedStep{pid: pid, what: "START", reply: make(chan stepKind, 1)}
+	go func(start *parkedStep) {
+		<-start.reply
+		resp := b.do(rp, method, target, hdr)
+		sc.mu.Lock()
+		ps.resp, ps.done, ps.parked = resp, true, nil
+		sc.mu.Unlock()
+		sc.events <- pid
+	}(ps.parked)
+}
+
+// step releases the pending step of pid with the given disposition and waits until pid is parked again or finished.
+// Returns the step that was executed ("" if pid has nothing to do). A process that is running but neither parks nor finishes within
+// blockAfter (it is polling an in-process lock) is reported as BLOCKED / WAIT and left running.
+func (sc *scheduler) step(pid string, k stepKind) string {
+	sc.mu.Lock()
+	ps := sc.procs[pid]
+	if ps == nil || ps.done || ps.crashed {
+		sc.mu.Unlock()
+		return ""
+	}
+	st := ps.parked
+	ps.parked = nil
+	sc.current = pid
+	sc.active = true
+	if k == stepCrash && st != nil {
+		ps.crashed = true
+		sc.dead[pid] = true
+	}
+	sc.mu.Unlock()
+	label := "WAIT"
+	if st != nil {
+		label = st.what
+		if k == stepFault {
+			label += " !fault"
+		}
+		if k == stepCrash {
+			label += " !crash"
+		}
+		st.reply <- k
+		if k == stepCrash {
+			// the request goroutine keeps failing against a dead connection until it gives up; we do not wait for it
+			ps.steps = append(ps.steps, label)
+			sc.trace = append(sc.trace, pid+":"+label)
+			return label
+		}
+	}
+	limit := sc.blockAfter
+	if limit == 0 {
+		limit = 20 * time.Second
+	}
+	deadline := time.Now().Add(limit)
+	for {
+		sc.mu.Lock()
+		settled := ps.parked != nil || ps.done
+		sc.mu.Unlock()
+		if settled {
+			break
+		}
+		if time.Now().After(deadline) {
+			if sc.blockAfter > 0 {
+				label += " (blocked)"
+			} else {
+				label += " !stuck"
+			}
+			break
+		}
+		select {
+		case <-sc.events:
+		case <-time.After(2 * time.Millisecond):
+		}
+	}
+	ps.steps = append(ps.steps, label)
+	sc.trace = append(sc.trace, pid+":"+label)
+	return label
+}
+
+func (sc *scheduler) pending(pid string) string {
+	sc.mu.Lock()
+	defer sc.mu.Unlock()
+	ps := sc.procs[pid]
+	if ps == nil || ps.done || ps.crashed || ps.parked == nil {
+		return ""
+	}
+	return ps.parked.what
+}
+
+func (sc *scheduler) isDone(pid string) bool {
+	sc.mu.Lock()
+	defer sc.mu.Unlock()
+	ps := sc.procs[pid]
+	return ps == nil || ps.done || ps.crashed
+}
+
+// drain runs all unfinished processes to completion, round-robin in spawn order.
+func (sc *scheduler) drain(maxSteps int) {
+	for n := 0; n < maxSteps; n++ {
+		progressed := false
+		for _, pid := range sc.order {
+			if !sc.isDone(pid) {
+				if sc.step(pid, stepProceed) != "" {
+					progressed = true
+				}
+			}
+		}
+		if !progressed {
+			return
+		}
+	}
+}
+
+func (sc *scheduler) stop() {
+	sc.mu.Lock()
+	sc.active = false
+	var pend []*parkedStep
+	for _, ps := range sc.procs {
+		if ps.parked != nil && !ps.done {
+			pend = append(pend, ps.parked)
+			ps.parked = nil
+		}
+	}
+	sc.mu.Unlock()
+	for _, st := range pend {
+		st.reply <- stepProceed // let stragglers run on unscheduled; nothing observes them any more
+	}
+}
+
+func (sc *scheduler) status(pid string) int {
+	sc.mu.Lock()
+	defer sc.mu.Unlock()
+	if ps := sc.procs[pid]; ps != nil && ps.resp != nil {
+		return ps.resp.Status
+	}
+	return 0
+}
+
+var _ = fmt.Sprintf
